@@ -18,6 +18,7 @@ func init() {
 }
 
 func runC09(c *Ctx) {
+	c.rule("atomic-pair", "(shared with C05/C06) the (config, serial) pair EnableVerification returns on its no-monitor paths comes from one atomic load in ViewVersion", 2)
 	c.rule("verify-sites", "Verify is invoked only at the known sites, each under its exact guard: Config (isVerified && !Skip && !Delay), the re-stack (isVerified && !skipVerify), the monitor's enable helper (only when called, which the monitor does only while skipVerify), and the no-monitor fast path of EnableVerification (Delay && no monitor && isVerified)", 4)
 	c.rule("flag-transitions", "skipVerify starts as DelayInitialVerification and is only ever reassigned !helper(...); the helper returns true exactly when the installed config is not a VerifiedConfig or Verify returned nil, and false (delay stays in force) otherwise; the monitor calls the helper only while skipVerify", 4)
 	c.rule("enable-result", "every value EnableVerification or the monitor's replies can hand back with a nil error is the config and serial of one ViewVersion call - the one Verify was invoked on; error returns carry a nil config; the API returns exactly the fields of the monitor's reply", 6)
@@ -34,6 +35,7 @@ func runC09(c *Ctx) {
 	if !k.ok {
 		return
 	}
+	c05Atomic(c, k)
 	c18ParamsOnly(c, "ez-suppression")
 	w := c.W
 	m := k.monitor
